@@ -1,5 +1,6 @@
 import LasioModel.Data
 import LasioProofs.Lemmas.DataLemmas
+import LasioProofs.Lemmas.RoundTripData
 /-
 C06 — NULL handling on read.  Statements about `applyNull` (the step of `LASFile.read` that replaces the ~Well NULL
 value by NaN), for an arbitrary float service: cells are canonical float texts, `feq` is IEEE `==` on them.
@@ -150,6 +151,63 @@ example : applyNull true (some zeroPos) [.floats [zeroPos], .floats [zeroNeg, ze
 
 example : floatCell (applyNull true (some nullHex) [.floats [nullHex], .floats [nullHex]]) 1 0 = some nanTxt := by decide
 
+/-! ### the NaN mask through a write -> read cycle (writer model `Dw`, bridge lemmas `Rt` in Lemmas/RoundTripData.lean)
+
+`Rt.tokenRows c null rows` is the matrix of written tokens; by `C01_roundtrip_normal` / `C01_roundtrip_numpy`
+(Props/C01.lean) the engines return `matrixColumns ft n (Rt.tokenRows c null rows)` from the written body.
+`Rt.TableOK ft null nv c rows`: the NULL text converts to the header NULL value `nv`, `nv == nv`, every written token
+converts, and the `%.Nf` rendering of a value that is not NaN is not read as NaN.
+`Rt.NoNullClash ft nv c rows`: no cell outside column 0 that is not NaN is printed to a token whose float is `==` `nv`. -/
+
+/-- **The NaN mask survives write -> read** (strict policy, numeric header NULL `nv`): for every cell (i, j) = `x` of the
+r × n matrix, outside column 0 the cell read back is NaN **iff** `x` was NaN, and a cell that was not NaN reads back as the
+float of its printed token `'%.Nf' % x`; in column 0 every cell reads back as the float of its token (a NaN index sample
+comes back as the NULL value, not as NaN). -/
+theorem C06_roundtrip_mask (ft : FloatTable) (null nv : Str) (c : Dw.RowCfg) (rows : List (List Dw.F64)) (n : Nat)
+    (hrect : ∀ r ∈ rows, r.length = n) (htab : Rt.TableOK ft null nv c rows) (hclash : Rt.NoNullClash ft nv c rows)
+    (i j : Nat) (row : List Dw.F64) (x : Dw.F64) (hi : rows[i]? = some row) (hx : row[j]? = some x) :
+    (j ≠ 0 → (floatCell (applyNull true (some nv) (matrixColumns ft n (Rt.tokenRows c null rows))) j i = some nanTxt
+        ↔ x.isNaN = true)) ∧
+    (j ≠ 0 → x.isNaN = false →
+      floatCell (applyNull true (some nv) (matrixColumns ft n (Rt.tokenRows c null rows))) j i =
+        toFloat ft (Dw.fmtFixed (c.colFmt j).prec x)) ∧
+    (j = 0 → floatCell (applyNull true (some nv) (matrixColumns ft n (Rt.tokenRows c null rows))) j i =
+        toFloat ft (Dw.cellToken null (c.colFmt 0) x)) :=
+  Rt.roundtrip_mask ft null nv c rows n hrect htab hclash i j row x hi hx
+
+/-- before NULL handling, cell (i, j) of what the engines return is the float of the written token of cell (i, j) -/
+theorem C06_roundtrip_cell (ft : FloatTable) (null : Str) (c : Dw.RowCfg) (rows : List (List Dw.F64)) (n : Nat)
+    (hrect : ∀ r ∈ rows, r.length = n) (hnum : Numeric ft (Rt.tokenRows c null rows))
+    (i j : Nat) (row : List Dw.F64) (x : Dw.F64) (hi : rows[i]? = some row) (hx : row[j]? = some x) :
+    floatCell (matrixColumns ft n (Rt.tokenRows c null rows)) j i = toFloat ft (Dw.cellToken null (c.colFmt j) x) :=
+  Rt.floatCell_written ft null c rows n hrect hnum i j row x hi hx
+
+/-- COUNTER-EXAMPLE (`NoNullClash` is needed): NULL −9999.25, the sample −9999.2501 (binary64 `Rt.cxSample`) in column 1
+written with `%.2f` prints as `-9999.25`, the NULL text; read back it is NaN although the sample was not.  All other
+hypotheses of `C06_roundtrip_mask` hold. -/
+theorem C06_roundtrip_mask_needs_noNullClash :
+    Rt.TableOK Rt.cxFt Rt.cxNull Rt.cxNv Rt.cxCfg Rt.cxRows ∧ Rt.cxSample.isNaN = false ∧
+    Dw.fmtFixed 2 Rt.cxSample = Rt.cxNull ∧
+    floatCell (applyNull true (some Rt.cxNv) (matrixColumns Rt.cxFt 2 (Rt.tokenRows Rt.cxCfg Rt.cxNull Rt.cxRows))) 1 0
+      = some nanTxt ∧
+    ¬ Rt.NoNullClash Rt.cxFt Rt.cxNv Rt.cxCfg Rt.cxRows :=
+  Rt.mask_needs_noNullClash
+
+/-- non-vacuity: the section with the sample −124990.75 in place of −9999.2501, and a NaN cell below it, satisfies every
+hypothesis of `C06_roundtrip_mask`, `NoNullClash` included; the sample reads back as itself, the NaN cell as NaN -/
+theorem C06_roundtrip_mask_example :
+    Rt.TableOK Rt.exFt Rt.cxNull Rt.cxNv Rt.cxCfg Rt.exRows ∧ Rt.NoNullClash Rt.exFt Rt.cxNv Rt.cxCfg Rt.exRows ∧
+    Rt.tokenRows Rt.cxCfg Rt.cxNull Rt.exRows =
+      [["1.00".toList, "-124990.75".toList], ["2.00".toList, "-9999.25".toList]] ∧
+    floatCell (applyNull true (some Rt.cxNv) (matrixColumns Rt.exFt 2 (Rt.tokenRows Rt.cxCfg Rt.cxNull Rt.exRows))) 1 0
+      = some "-0x1.e83ec00000000p+16".toList ∧
+    floatCell (applyNull true (some Rt.cxNv) (matrixColumns Rt.exFt 2 (Rt.tokenRows Rt.cxCfg Rt.cxNull Rt.exRows))) 1 1
+      = some nanTxt := by
+  refine ⟨Rt.ex_table, Rt.ex_noClash, Rt.ex_tokens, ?_, ?_⟩
+  · exact ((C06_roundtrip_mask _ _ _ _ _ 2 (by decide) Rt.ex_table Rt.ex_noClash 0 1 _ _ rfl rfl).2.1 (by decide) rfl).trans
+      (by decide)
+  · exact ((C06_roundtrip_mask _ _ _ _ _ 2 (by decide) Rt.ex_table Rt.ex_noClash 1 1 _ _ rfl rfl).1 (by decide)).mpr rfl
+
 end Lasio.Dt
 
 #print axioms Lasio.Dt.C06_iff_strict
@@ -163,3 +221,7 @@ end Lasio.Dt
 #print axioms Lasio.Dt.C06_length
 #print axioms Lasio.Dt.C06_nan_kept
 #print axioms Lasio.Dt.C06_index_exception
+#print axioms Lasio.Dt.C06_roundtrip_mask
+#print axioms Lasio.Dt.C06_roundtrip_cell
+#print axioms Lasio.Dt.C06_roundtrip_mask_needs_noNullClash
+#print axioms Lasio.Dt.C06_roundtrip_mask_example
